@@ -780,12 +780,24 @@ func (r *recorder) corruptMaybe(ev *event) {
 				return
 			}
 		}
-	case "lookback-drop":
+	case "lookback-drop": // drop from a look-back answer a member of the plain shard logged next to it
 		for i := range ev.Lookbacks {
-			if len(ev.Lookbacks[i].S) > 1 {
-				ev.Lookbacks[i].S = ev.Lookbacks[i].S[:len(ev.Lookbacks[i].S)-1]
-				r.corrupt = ""
-				return
+			lb := &ev.Lookbacks[i]
+			for _, sh := range ev.Shards {
+				if sh.ID != lb.ID || sh.Size != lb.Size || len(sh.S) == 0 {
+					continue
+				}
+				var kept []int
+				for _, m := range lb.S {
+					if m != sh.S[0] {
+						kept = append(kept, m)
+					}
+				}
+				if len(kept) < len(lb.S) {
+					lb.S = append([]int{}, kept...)
+					r.corrupt = ""
+					return
+				}
 			}
 		}
 	}
